@@ -737,3 +737,25 @@ func (it *Interp) findMethod(t types.Type, pkg *types.Package, name string) *ssa
 	}
 	return it.prog.MethodValue(sel)
 }
+
+func init() {
+	// unique.Make: structural interning (net/netip keeps its zone markers in unique handles)
+	reg("unique.Make", func(fr *frame, args []Value) Value {
+		it := fr.it
+		key, ok := concKey(args[0])
+		if !ok {
+			panic(engineErr("unique.Make of a symbolic value"))
+		}
+		key = fr.fn.String() + "|" + key
+		if it.uniqueTab == nil {
+			it.uniqueTab = map[string]*Value{}
+		}
+		p, ok := it.uniqueTab[key]
+		if !ok {
+			v := copyVal(args[0])
+			p = &v
+			it.uniqueTab[key] = p
+		}
+		return Struct{p}
+	})
+}
